@@ -220,7 +220,13 @@ fn run_ops(case: &Case, world: &World) -> Result<Stats, Fail> {
         match op {
             Op::StrBorrowed(i) => {
                 lineage += 1;
-                pool.push((Val::S { cow: Cow::from_borrowed(STATIC_STRS[*i]), model: STATIC_STRS[*i].to_string(), origin: Origin::Borrowed }, lineage));
+                // three ways to a borrowed string: from_borrowed, the const constructor the macros use, From<&'static str>
+                let cow: Cow<'static, str> = match (*i + pool.len()) % 3 {
+                    0 => Cow::from_borrowed(STATIC_STRS[*i]),
+                    1 => Cow::const_str(STATIC_STRS[*i]),
+                    _ => Cow::from(STATIC_STRS[*i]),
+                };
+                pool.push((Val::S { cow, model: STATIC_STRS[*i].to_string(), origin: Origin::Borrowed }, lineage));
             }
             Op::StrOwned { content, extra_cap, via_std } => {
                 let mut s = String::with_capacity(STATIC_STRS[*content].len() + extra_cap);
